@@ -184,6 +184,53 @@ def part_swappers(chk, drv):
         chk.count('swapper configurations')
 
 
+def part_grid_layout_changes(chk):
+    """Grid.setLayout / save / restore on real Grid objects (all dtypes, with and without save memory) over a handler and over the
+    driver's swapper: the buffers Grid hands to the collectives must agree in count and datatype on all members"""
+    from pygyro.model.layout import getLayoutHandler, LayoutSwapper
+    from pygyro.model.grid import Grid
+    rng = chk.rng
+    L4 = {'flux_surface': [0, 3, 1, 2], 'v_parallel': [0, 2, 1, 3], 'poloidal': [3, 2, 1, 0]}
+    for it in range(chk.n(8, 60)):
+        p0, p1 = rng.choice([(2, 1), (1, 2), (2, 2), (3, 2), (2, 3)])
+        dtype = rng.choice([float, np.complex128, np.complex128])
+        save = rng.random() < 0.7
+        swapper = rng.random() < 0.5
+        ext = [rng.randint(max(p0, p1), 6) for _ in range(3 if swapper else 4)]
+        names = ['v_parallel_2d', 'mode_solve', 'v_parallel_1d', 'poloidal'] if swapper else list(L4)
+        ops = [rng.choice(['set', 'set', 'set', 'save', 'restore']) for _ in range(rng.randint(3, 7))]
+        targets = [rng.choice(names) for _ in ops]
+        eta = lu.eta_grids(ext)
+
+        def body():
+            comm = MPI.COMM_WORLD
+            if swapper:
+                mgr = LayoutSwapper(comm, c03.DRIVER_GROUPS, [[p0, p1], p0, p1], eta, names[0])
+            else:
+                mgr = getLayoutHandler(comm, L4, [p0, p1], eta)
+            g = Grid(eta, [None] * len(ext), mgr, names[0], comm, dtype=dtype, allocateSaveMemory=save)
+            g._f[:] = 1.0
+            saved = False
+            for op, tgt in zip(ops, targets):
+                if op == 'set':
+                    g.setLayout(tgt)
+                elif op == 'save' and save and not saved:
+                    g.saveGridValues()
+                    saved = True
+                elif op == 'restore' and saved:
+                    g.restoreGridValues()
+                    saved = False
+            return str(g.currentLayout)
+        case = {'manager': 'swapper' if swapper else 'handler', 'nprocs': [p0, p1], 'ext': ext, 'dtype': np.dtype(dtype).name,
+                'allocateSaveMemory': save, 'ops': list(zip(ops, targets))}
+        ref = run_policies(chk, p0 * p1, body, case, 'grid layout changes', policies=('reverse', 'random'))
+        if ref is None:
+            continue
+        chk.case(('gridlc', swapper, p0, p1, tuple(ext), np.dtype(dtype).name, save, tuple(ops), tuple(targets)), nontrivial=p0 * p1 > 1)
+        chk.traces_validated += p0 * p1
+        chk.count('grid layout-change histories (%s, %s%s)' % ('swapper' if swapper else 'handler', np.dtype(dtype).name, ', save memory' if save else ''))
+
+
 # ----------------------------------------------------------------------------------------------------------------
 def part_grid_reductions(chk):
     """getMin/getMax (all four branches), getBlockFromDict/getBlockForFig, incl. a plot-only rank owning empty blocks"""
@@ -218,6 +265,11 @@ def part_grid_reductions(chk):
                 grid.setLayout(new)
             blk = grid.getBlockFromDict({fix_axis: fix_val}, comm, draw)
             out['blk'] = None if blk is None else int(blk[3].size)
+            # the same on a communicator whose rank numbering differs from the grid's own (a Split half, root = its last member)
+            half = comm.Split(comm.Get_rank() % 2, comm.Get_rank())
+            hroot = half.Get_size() - 1
+            hb = grid.getBlockFromDict({fix_axis: fix_val}, half, hroot)
+            out['half'] = (half.Get_rank() == hroot, hb is not None)
             full = np.zeros(0)
             if grid.getAllData().size:
                 full = np.array(grid.getAllData(), copy=True)
@@ -233,6 +285,12 @@ def part_grid_reductions(chk):
         for k in ('min_all', 'max_all', 'min_fix', 'max_fix'):
             if vals[draw][k] is None or any(v[k] is not None for i, v in enumerate(vals) if i != draw):
                 chk.fail('C06:reduce-root', 'reduction %s did not deliver its result exactly at the drawing rank' % k, case)
+        for i, v in enumerate(vals):
+            is_root, got = v['half']
+            if is_root != got:
+                chk.fail('C06:figure-block-root', 'getBlockFromDict on a sub-communicator: rank %d %s' % (
+                    i, 'is the root but got nothing' if is_root else 'is not the root but got a block'), case)
+                break
         chk.case(('gridred', nranks, plot, draw, tuple(npts), lay), nontrivial=plot,
                  sample=dict(case, rank0_ops=[t[1] for t in ref.traces[0]][:12]) if it == 0 else None)
         chk.traces_validated += nranks
@@ -468,7 +526,7 @@ def run(chk):
                 'sequences of depth 5 on <=3 ranks for the first configurations): H1-H3 and exact model traces; (b) grid reductions and figure blocks incl. a '
                 'plot-only rank; (c) the real driver for one step on 2-4 ranks under different policies; (d) random connection graphs (2-7 layouts, random names) '
                 'in interpreters with different string-hash seeds. non-trivial = more than one rank and at least one data-moving collective / graphs with >=4 connected layouts')
-    chk.proof_side(build=not getattr(chk, 'no_build', False), extra_props=('C06Extra', 'C06Traces'))
+    chk.proof_side(build=not getattr(chk, 'no_build', False), extra_props=('C06Extra', 'C06Traces', 'C06SwapperTraces'))
     drv = common.LeanDriver('C06.lean')
     try:
         part_handlers(chk, drv)
@@ -477,6 +535,7 @@ def run(chk):
     finally:
         drv.close()
     part_grid_reductions(chk)
+    part_grid_layout_changes(chk)
     part_setup_restart(chk)
     part_driver(chk)
     chk.assumptions = ['real MPI implements blocking collectives matched per communicator in program order (the abstract machine of Model/Collectives.lean); '
